@@ -1169,14 +1169,38 @@ var oversizeVal []byte                // 1<<28, allocated on first use
 // and leave the other operations of the batch alone (C19).
 func (e *Exec) tryOversize(b moss.Batch) {
 	e.out.Checks++
-	if err := b.Set(oversizeKey, []byte("v")); err != moss.ErrKeyTooLarge {
-		e.failD("limit-not-enforced", map[string]string{"symptom": "key-limit"}, "Set with a key of 2^24 bytes: err=%v, want ErrKeyTooLarge", err)
-	}
-	if err := b.Del(oversizeKey); err != moss.ErrKeyTooLarge {
-		e.failD("limit-not-enforced", map[string]string{"symptom": "key-limit"}, "Del with a key of 2^24 bytes: err=%v, want ErrKeyTooLarge", err)
+	// one of several probe shapes, so that what a late limit check leaves
+	// behind in the batch differs (a lone Del of a 2^24-byte key leaves a
+	// pre-allocated buffer exactly full)
+	switch simrt.Choose(4, "oversize-shape") {
+	case 0:
+		if err := b.Set(oversizeKey, []byte("v")); err != moss.ErrKeyTooLarge {
+			e.failD("limit-not-enforced", map[string]string{"symptom": "key-limit"}, "Set with a key of 2^24 bytes: err=%v, want ErrKeyTooLarge", err)
+		}
+		if err := b.Del(oversizeKey); err != moss.ErrKeyTooLarge {
+			e.failD("limit-not-enforced", map[string]string{"symptom": "key-limit"}, "Del with a key of 2^24 bytes: err=%v, want ErrKeyTooLarge", err)
+		}
+	case 1:
+		if err := b.Del(oversizeKey); err != moss.ErrKeyTooLarge {
+			e.failD("limit-not-enforced", map[string]string{"symptom": "key-limit"}, "Del with a key of 2^24 bytes: err=%v, want ErrKeyTooLarge", err)
+		}
+	case 2:
+		if err := b.Merge(oversizeKey, nil); err != moss.ErrKeyTooLarge {
+			e.failD("limit-not-enforced", map[string]string{"symptom": "key-limit"}, "Merge with a key of 2^24 bytes: err=%v, want ErrKeyTooLarge", err)
+		}
+	case 3:
+		if err := b.Set(oversizeKey, nil); err != moss.ErrKeyTooLarge {
+			e.failD("limit-not-enforced", map[string]string{"symptom": "key-limit"}, "Set with a key of 2^24 bytes: err=%v, want ErrKeyTooLarge", err)
+		}
 	}
 	e.probe("oversize-key-rejected")
-	if e.c.Flags["tier-thorough"] && simrt.Chance(0.2, "bigval") {
+	// (a 2^28-byte value costs about 0.1 s to be copied where the limit is
+	// checked late, hence rarer in the quick tier)
+	pBig := 0.03
+	if e.c.Flags["tier-thorough"] {
+		pBig = 0.2
+	}
+	if simrt.Chance(pBig, "bigval") {
 		if oversizeVal == nil {
 			oversizeVal = make([]byte, 1<<28)
 		}
